@@ -63,14 +63,19 @@ InterpClauses == LET s0 == SysOfJson(Rec.s0)  s1 == SysOfJson(Rec.s1)  o == SysO
      equals_spec |-> SysEq(o, Interpolate(s0, s1, Rec.a, Rec.den)),
      laws        |-> InterpolateLaws(s0, s1, Rec.a, Rec.den, o, KSof(o.rs)) ]
 
-(* SystemInterpolatorSOC(soc0, soc1).interpolate(a/den): H(k) of Data_K_soc is affine in alpha and reproduces the endpoints *)
+(* SystemInterpolatorSOC(soc0, soc1).interpolate(a/den): H(k) of Data_K_soc is affine in alpha and reproduces the endpoints.
+   Rec.nspins = the numbers of spin channels of the two systems, every pair of {1, 2}: a system with one channel (SystemSOC(up)) is
+   recorded as MakeSOC(up, up) with Nspin1D, so in a mixed pair the result has two channels and the one-channel side contributes its
+   single channel to both: exactly what the affine clause over HkSOC says *)
 InterpSocClauses == LET s0 == SocOfJson(Rec.soc0)  s1 == SocOfJson(Rec.soc1) IN
    [ affine    |-> \A j \in 1..Len(Rec.ks) :
                       MatScale(GInt(Rec.den), Rec.hk[j]) = MatAdd(MatScale(GInt(Rec.den - Rec.a), HkSOC(s0, Rec.ks[j])),
                                                                   MatScale(GInt(Rec.a), HkSOC(s1, Rec.ks[j]))),
      endpoints |-> /\ Rec.a = 0 => \A j \in 1..Len(Rec.ks) : Rec.hk[j] = HkSOC(s0, Rec.ks[j])
                    /\ Rec.a = Rec.den => \A j \in 1..Len(Rec.ks) : Rec.hk[j] = HkSOC(s1, Rec.ks[j]),
-     hermitian |-> \A j \in 1..Len(Rec.ks) : IsHermitian(Rec.hk[j]) ]
+     hermitian |-> \A j \in 1..Len(Rec.ks) : IsHermitian(Rec.hk[j]),
+     one_channel_side |-> \A x \in 1..2 : LET s == IF x = 1 THEN s0 ELSE s1 IN
+                             Rec.nspins[x] = 1 => s.dn = s.up /\ (s.hassoc => s.D = Nspin1D(s.D)) ]
 
 (* builders: the call history is run on the specification's builder and compared with the recorded internal state and import *)
 PtbStep(m, st) == CASE st.f = "set_onsite_all" -> PtbSetOnsiteAll(m, st.vals, st.mode)
